@@ -222,6 +222,36 @@ func TestC03(t *testing.T) {
 				break
 			}
 			cfg := &tls.Config{ServerName: sni, OmitEmptyPsk: true, InsecureSkipVerify: true}
+			// Config knobs that must not leak into a parrot's hello: the spec decides
+			flavour := ""
+			switch (k / len(snis)) % 8 {
+			case 1:
+				cfg.MinVersion, cfg.MaxVersion = tls.VersionTLS10, tls.VersionTLS11
+				flavour = "Config versions 1.0-1.1"
+			case 2:
+				cfg.MinVersion, cfg.MaxVersion = tls.VersionTLS10, tls.VersionTLS10
+				flavour = "Config versions 1.0-1.0"
+			case 3:
+				cfg.MinVersion, cfg.MaxVersion = tls.VersionTLS12, tls.VersionTLS12
+				flavour = "Config versions 1.2-1.2"
+			case 4:
+				cfg.MinVersion, cfg.MaxVersion = tls.VersionTLS13, tls.VersionTLS13
+				flavour = "Config versions 1.3-1.3"
+			case 5:
+				cfg.CipherSuites = []uint16{tls.TLS_RSA_WITH_AES_128_CBC_SHA}
+				cfg.CurvePreferences = []tls.CurveID{tls.CurveP521}
+				flavour = "Config.CipherSuites/CurvePreferences"
+			case 6:
+				cfg.SessionTicketsDisabled = true
+				flavour = "Config.SessionTicketsDisabled"
+			case 7:
+				cfg.Renegotiation = tls.RenegotiateFreelyAsClient
+				cfg.DynamicRecordSizingDisabled = true
+				flavour = "Config.Renegotiation"
+			}
+			if flavour != "" {
+				r.Count("connections_with_config_flavour", 1)
+			}
 			var raw []byte
 			if k%6 == 5 {
 				hs, _, herr, pn := sendHello(cfg, p.ID, nil)
@@ -247,7 +277,7 @@ func TestC03(t *testing.T) {
 			probs, order := checkAgainstSpec(&spec, ch, sni, ShufflingParrots[p.Name], specMaxVersion(&spec))
 			for _, pr := range probs {
 				r.Violation(map[string]string{"kind": "parrot_differs_from_spec", "parrot": p.Name, "what": firstWords(pr, 3)},
-					fmt.Sprintf("%s (sni %q): %s", p.Name, sni, pr), map[string]any{"hello": mon.Hex(raw)})
+					fmt.Sprintf("%s (sni %q%s): %s", p.Name, sni, map[bool]string{true: ", " + flavour, false: ""}[flavour != ""], pr), map[string]any{"hello": mon.Hex(raw), "config": flavour})
 			}
 			orders[order] = true
 			r.Case(p.Name+"|"+order, true)
